@@ -137,6 +137,7 @@ fn run_case(name: &str, block_on: bool, self_wake: usize, progs: Vec<Vec<String>
             StepResult::Done => "done".into(),
             StepResult::Blocked => "blocked".into(),
             StepResult::Skip => "skip".into(),
+            StepResult::Panicked => "panic".into(),
         };
         writeln!(out, "step {} {} {}", t, label, snapshot(&shared)).unwrap();
     }
@@ -144,7 +145,7 @@ fn run_case(name: &str, block_on: bool, self_wake: usize, progs: Vec<Vec<String>
     for t in 1..=n {
         for _ in 0..100 {
             match sched.step(t) {
-                StepResult::Done | StepResult::Skip => break,
+                StepResult::Done | StepResult::Skip | StepResult::Panicked => break,
                 _ => {}
             }
         }
@@ -154,7 +155,7 @@ fn run_case(name: &str, block_on: bool, self_wake: usize, progs: Vec<Vec<String>
         signal.stop();
         signal.wakeup();
         match sched.step(0) {
-            StepResult::Done | StepResult::Skip => break,
+            StepResult::Done | StepResult::Skip | StepResult::Panicked => break,
             _ => {}
         }
     }
